@@ -415,6 +415,50 @@ type SUp8 = St<8, true, true, true, true>;
 type SDn8 = St<8, false, true, true, true>;
 type SUp4 = St<4, true, true, true, true>;
 type SDn16 = St<16, false, true, true, true>;
+type SDn4 = St<4, false, true, true, true>;
+type SUp1NoDe = St<1, true, true, false, true>;
+
+/// `BumpAllocatorTyped::dealloc(BumpBox)` (C13): through the plain scope the newest box is reclaimed (same address
+/// again), through `WithoutDealloc` - at any nesting depth, the provided method included - the allocated byte count
+/// never changes; through `WithoutShrink` alone deallocation still reclaims.
+pub(crate) fn ob_typed_dealloc<A, S>(k: usize, hint: usize, wrapper: u8)
+where
+    A: crate::BaseAllocator<S::GuaranteedAllocated> + Default,
+    S: BumpAllocatorSettings,
+{
+    let mut a = Arena::<A, S>::build(k, hint);
+    a.havoc();
+    unsafe { BUDGET = 0 };
+    let scope: &BumpScope<'_, A, S> = unsafe { transmute_ref(&a.bump) };
+    let x: u32 = kani::any();
+    let Ok(b) = scope.try_alloc(x) else {
+        return;
+    };
+    let addr = &*b as *const u32 as usize;
+    let ci = a.cur_index();
+    let pos1 = a.snaps()[ci].pos;
+    let bytes1 = a.allocated_bytes();
+    match wrapper {
+        0 => BumpAllocatorTyped::dealloc(scope, b),
+        1 => BumpAllocatorTyped::dealloc(&WithoutDealloc(scope), b),
+        2 => BumpAllocatorTyped::dealloc(&WithoutDealloc(WithoutShrink(scope)), b),
+        3 => BumpAllocatorTyped::dealloc(&WithoutShrink(WithoutDealloc(scope)), b),
+        4 => BumpAllocatorTyped::dealloc(&&WithoutDealloc(scope), b),
+        _ => BumpAllocatorTyped::dealloc(&WithoutShrink(scope), b),
+    }
+    let reclaiming = (wrapper == 0 || wrapper > 4) && S::DEALLOCATES;
+    if reclaiming {
+        // 4 is a multiple of the minimum alignments instantiated here (1, 4)
+        kani::assert(a.allocated_bytes() + 4 <= bytes1, "C13.typed_dealloc.newest_box_is_reclaimed");
+        let again = scope.try_alloc(x);
+        kani::assert(matches!(&again, Ok(bb) if &**bb as *const u32 as usize == addr), "C13.typed_dealloc.same_layout_again_gets_the_same_address");
+    } else {
+        kani::assert(a.allocated_bytes() == bytes1 && a.snaps()[ci].pos == pos1 && a.cur_index() == ci, "C13.typed_dealloc.opt_out_never_changes_the_allocated_bytes");
+    }
+    unsafe { BUDGET = usize::MAX };
+    kani::assert(a.wf(), "C10.typed_dealloc.wf");
+    kani::cover!(true, "deallocated-a-box");
+}
 
 inst!(ep_alloc_sized, unwind 3, ob_entry_pair, LogAlloc, SUp1, 1, 128, 0);
 inst!(ep_allocator_impl_allocate, unwind 3, ob_entry_pair, LogAlloc, SDn8, 1, 128, 1);
@@ -434,6 +478,16 @@ inst!(ep_try_alloc_slice_copy, unwind 3, ob_entry_pair, LogAlloc, SUp1, 1, 128, 
 inst!(ep_alloc_sized_dn16, unwind 3, ob_entry_pair, LogAlloc, SDn16, 1, 128, 0);
 inst!(ep_alloc_slice_up4, unwind 3, ob_entry_pair, LogAlloc<u64>, SUp4, 1, 128, 3);
 inst!(ep_alloc_sized_up8_k2, unwind 4, ob_entry_pair, LogAlloc, SUp8, 2, 64, 0);
+
+inst!(typed_dealloc_plain_up1, unwind 3, ob_typed_dealloc, LogAlloc, SUp1, 1, 128, 0);
+inst!(typed_dealloc_plain_dn4, unwind 3, ob_typed_dealloc, LogAlloc, SDn4, 1, 128, 0);
+inst!(typed_dealloc_without_dealloc_up1, unwind 3, ob_typed_dealloc, LogAlloc, SUp1, 1, 128, 1);
+inst!(typed_dealloc_without_dealloc_dn4, unwind 3, ob_typed_dealloc, LogAlloc, SDn4, 1, 128, 1);
+inst!(typed_dealloc_without_dealloc_outer_up1, unwind 3, ob_typed_dealloc, LogAlloc, SUp1, 1, 128, 2);
+inst!(typed_dealloc_without_dealloc_inner_dn4, unwind 3, ob_typed_dealloc, LogAlloc, SDn4, 1, 128, 3);
+inst!(typed_dealloc_ref_without_dealloc_up1, unwind 3, ob_typed_dealloc, LogAlloc, SUp1, 1, 128, 4);
+inst!(typed_dealloc_without_shrink_dn4, unwind 3, ob_typed_dealloc, LogAlloc, SDn4, 1, 128, 5);
+inst!(typed_dealloc_nodealloc_setting_up1, unwind 3, ob_typed_dealloc, LogAlloc, SUp1NoDe, 1, 128, 0);
 
 inst!(mut_vec_up1, unwind 5, ob_mut_vec, LogAlloc, SUp1, 1, 64, false);
 inst!(mut_vec_dn8, unwind 5, ob_mut_vec, LogAlloc, SDn8, 1, 64, false);
